@@ -3,6 +3,7 @@ package host
 import (
 	"bufio"
 	"encoding/json"
+	"errors"
 	"fmt"
 	"net"
 	"os"
@@ -103,6 +104,9 @@ func prepare(caseID int, sub string, pcfg map[string]any, ccfg *plugin.ClientCon
 			}
 			pr.HostPrefix, pr.PluginPrefix = hostPrefix, plugPrefix
 			pr.ForwardTCP = launch == "runner-forward"
+			if launch == "runner-stdout-err" {
+				pr.StdoutErr = errors.New("log stream: connection reset")
+			}
 			if strings.HasPrefix(launch, "runner-ctx") {
 				pr.KillHonoursCtx = true
 				if launch == "runner-ctx-slow" {
@@ -124,6 +128,10 @@ func prepare(caseID int, sub string, pcfg map[string]any, ccfg *plugin.ClientCon
 func (l *launched) pid() int {
 	b, err := os.ReadFile(l.PidFile)
 	if err != nil {
+		// killed before it could write the file: a custom runner of the harness knows the pid anyway
+		if l.Proc != nil && l.Proc.Cmd != nil && l.Proc.Cmd.Process != nil {
+			return l.Proc.Cmd.Process.Pid
+		}
 		return 0
 	}
 	n, _ := strconv.Atoi(strings.TrimSpace(string(b)))
